@@ -140,6 +140,41 @@ def branch_flag(cfg: CFG, text: str, pol: bool, rebinding: Iterable[str] = ()) -
     return {nid: all(v for _f, v in sts) for nid, sts in seen.items()}
 
 
+def alias_expand(fn: ast.AST, e: Optional[ast.AST], depth: int = 6) -> Optional[ast.AST]:
+    """Copy of expression ``e`` (of function ``fn``) in which every local name that is bound exactly once,
+    by a plain assignment, is replaced by the expression it was bound to (recursively).  Lets a rule see
+    through temporaries, named booleans and aliases (``old = self.pos`` ... ``f(old)`` reads as ``f(self.pos)``)."""
+    import copy
+
+    if e is None:
+        return None
+
+    class T(ast.NodeTransformer):
+        def __init__(self, d):
+            self.d = d
+
+        def visit_Name(self, node):
+            if isinstance(node.ctx, ast.Load) and self.d > 0:
+                v = single_assignment(fn, node.id)
+                if v is not None and not any(isinstance(x, (ast.Await, ast.Yield, ast.YieldFrom, ast.NamedExpr)) for x in ast.walk(v)):
+                    return T(self.d - 1).visit(copy.deepcopy(v))
+            return node
+
+        def visit_Lambda(self, node):
+            return node
+
+    return T(depth).visit(copy.deepcopy(e))
+
+
+def xdotted(fn: ast.AST, e: Optional[ast.AST]) -> Optional[str]:
+    """q.dotted after alias expansion."""
+    return q.dotted(alias_expand(fn, e)) if e is not None else None
+
+
+def xunparse(fn: ast.AST, e: Optional[ast.AST]) -> Optional[str]:
+    return q.unparse(alias_expand(fn, e)) if e is not None else None
+
+
 def iter_order(it: ast.AST, coll: str) -> Optional[str]:
     """How a loop iterable walks the collection at dotted path ``coll``: 'forward' (all elements, in
     order), 'reversed', 'reordered', 'partial' (a proper slice); None if not understood."""
